@@ -65,10 +65,10 @@ Definition tk_seeker_getitem : list stm :=
   [SEv (Call "tfld"); SEv (Rd "line_date"); SIf [SEv (Call "tfld")] []; SEv (Rd "line_date"); SIf [SRaise "TooManyLinesWithoutDate"] []; SEv (Rd "line_date"); SIf [] []; SEv (Rd "line_date"); SEv (Rd "line_date"); SEv (Rd "line_date"); SEv (Rd "line_date"); SExit].
 
 Definition tk_find_token : list stm :=
-  [SEv (Call "seek"); SLoop [SEv (Call "read"); SIf [SExit] []; SIf [SExit] []]; SRaise "MaxSearchableLineLengthReached"].
+  [SEv (Call "seek"); SLoop [SEv (Call "read"); SIf [SExit] []; SIf [SExit] []; SIf [SExit] []]; SRaise "MaxSearchableLineLengthReached"].
 
 Definition tk_find_token_reverse : list stm :=
-  [SLoop [SIf [] []; SEv (Call "seek"); SEv (Call "read"); SIf [SExit] []; SIf [SExit] []; SIf [SExit] []; SIf [SExit] []]; SRaise "MaxSearchableLineLengthReached"].
+  [SLoop [SIf [] []; SEv (Call "seek"); SEv (Call "read"); SIf [SExit] []; SIf [SExit] []; SIf [SExit] []; SIf [SExit] []; SIf [SExit] []]; SRaise "MaxSearchableLineLengthReached"].
 
 Definition tk_run_search : list stm :=
   [SEv (Call "stats_reset"); SLoop [SIf [SEv (Call "seq_reset")] []]; SEv (Call "apply_global"); SEv (Call "enumerate_lines"); SLoop [SIf [] []; SEv (Rd "lines_searched"); SEv (Wr "lines_searched"); SEv (Call "decode_line"); SLoop [SIf [SEv (Call "apply_single"); SIf [SExit] []] []; SIf [SEv (Call "sequence_search")] [SEv (Call "simple_search")]]]; SEv (Call "process_sequences"); SEv (Rd "lines_searched"); SIf [SLoop [SIf [SLoop []] []]] []; SExit].
